@@ -622,7 +622,9 @@ func main() {
 	r.Extra("race_build", g4lib.RaceEnabled())
 
 	// engines are created one after the other, before any concurrency
-	engR, engT, engP := core.NewEng("d"), core.NewEng("d"), core.NewEng("d")
+	// database name no other monitor uses: a client that lands on a foreign server (a port can be shared
+	// through SO_REUSEPORT on this box) fails at connect instead of reading someone else's tables
+	engR, engT, engP := core.NewEng("c35db"), core.NewEng("c35db"), core.NewEng("c35db")
 	for _, e := range []*core.Eng{engR, engT, engP} {
 		setup(e.NewSess())
 	}
@@ -643,7 +645,7 @@ func main() {
 	phase("setup")
 	sequential(r, engR, srvT, srvP)
 	phase("sequential")
-	reps := r.N(1, 2)
+	reps := r.N(1, 1)
 	for rep := 0; rep < reps; rep++ {
 		verifhook.SetPerturb(true, uint64(r.Seed)*7919+uint64(rep))
 		concurrent(r, srvT, rep)
@@ -719,7 +721,7 @@ func sequential(r *core.Run, engR *core.Eng, srvT, srvP *core.Srv) {
 		return
 	}
 	defer t.close()
-	n := r.N(150, 1500)
+	n := r.N(150, 900)
 	sideK := 0
 	r.Parallel("sequential", 1, func(int) {
 		for i := 0; i < n; i++ {
@@ -813,7 +815,7 @@ func runTriple(r *core.Run, t *triple, st stmt, i int) (connLost bool) {
 
 func concurrent(r *core.Run, srv *core.Srv, rep int) {
 	type tier struct{ clients, stmts int }
-	tiers := []tier{{1, r.N(8, 30)}, {8, r.N(25, 120)}, {32, r.N(4, 30)}}
+	tiers := []tier{{1, r.N(8, 30)}, {8, r.N(25, 100)}, {32, r.N(4, 20)}}
 	for ti, t := range tiers {
 		var wg sync.WaitGroup
 		var seq atomic.Int64
@@ -842,7 +844,7 @@ func concurrent(r *core.Run, srv *core.Srv, rep int) {
 					if abandon {
 						// stop reading after some rows and drop the connection; continue on a fresh one
 						if m := abandonMidResult(conn, q, binary, 1+rnd.Intn(k-1), lo, tag); m != "" {
-							r.Violation("concurrent-"+m, map[string]any{"sql": q, "client": c, "binary": binary, "abandoned": true})
+							r.Violation("concurrent-"+sigClass(m), map[string]any{"sql": q, "client": c, "binary": binary, "abandoned": true, "detail": m})
 						}
 						r.Count("conc.abandoned", 1)
 						conn.Close()
@@ -887,13 +889,21 @@ func concurrent(r *core.Run, srv *core.Srv, rep int) {
 					}
 					r.Distinct(fmt.Sprintf("conc|%s|clients=%d|%s", proto, t.clients, sizeClass(k)))
 					if m != "" {
-						r.Violation("concurrent-"+m, map[string]any{"sql": q, "args": args, "client": c, "clients": t.clients, "binary": binary})
+						r.Violation("concurrent-"+sigClass(m), map[string]any{"sql": q, "args": args, "client": c, "clients": t.clients, "binary": binary, "detail": m})
 					}
 				}
 			}(c)
 		}
 		wg.Wait()
 	}
+}
+
+// sigClass keeps the failure class of a checkStream message (the text before the first colon).
+func sigClass(m string) string {
+	if k := strings.Index(m, ":"); k > 0 {
+		return m[:k]
+	}
+	return m
 }
 
 // checkStream reads up to limit rows (-1: all) and checks ids lo.., payload, tag and the n column.
